@@ -196,7 +196,12 @@ def run(ctx):
     ctx.check(bool(parsed), "R10",
               "every written member is re-parsed as a register", pl.where(), "members are not re-parsed one by one", pl.qname, "member parse")
     inst = ctx.func(CLS + ".parse_instruction")
-    order = [U(c.args[0]) for c in C.calls_to(inst.node, "process_operand")]
+    _ifl = C.flow_of(inst)
+    order = []
+    for c in sorted(C.calls_to(inst.node, "process_operand"), key=lambda c: (c.lineno, c.col_offset)):
+        a_ = c.args[0] if c.args else None
+        k_ = _ifl.subst(a_.slice) if isinstance(a_, ast.Subscript) else None
+        order.append("result[%s]" % U(k_) if k_ is not None and U(_ifl.subst(a_.value)).endswith(".asDict()") else U(a_) if a_ is not None else "?")
     ctx.check(order == ["result['operand%d']" % i for i in range(1, 6)], "R4", "operands are collected in written order 1..5", inst.where(),
               "operands are collected as %s" % order, inst.qname, "operand order")
     # per operand slot: the processed operand is spliced in when it is a list, appended otherwise (statement or expression form)
